@@ -74,10 +74,10 @@ def strings(draw, max_size=8):
 def alignments(draw, canonical=True):
     """'~' ([a-zA-Z] '.'?)? Digit+ (',' Digit+)*; canonical = integers spelled without leading zeros."""
     pre = draw(st.sampled_from(['', '', 'e.', 'e', 'E.', 'x', 'Z.']))
-    n = draw(st.integers(1, 3))
+    n = draw(st.sampled_from([1, 1, 1, 2, 2, 3, 3, 12]))
     nums = []
     for _ in range(n):
-        v = draw(st.sampled_from([0, 1, 2, 5, 10, 12, 123]))
+        v = draw(st.sampled_from([0, 1, 2, 5, 10, 12, 123, 9, 99, 100, 1000, 65536]))
         s = str(v)
         if not canonical and chance(draw, 1, 4):
             s = '0' + s
@@ -85,7 +85,7 @@ def alignments(draw, canonical=True):
     return '~' + pre + ','.join(nums)
 
 
-ROLE_POOL = [':ARG0', ':ARG1', ':ARG2', ':mod', ':domain', ':op1', ':op2', ':op10', ':op9', ':polarity', ':quant',
+ROLE_POOL = [':ARG0', ':ARG1', ':ARG2', ':mod', ':domain', ':op1', ':op2', ':op10', ':op9', ':op11', ':op100', ':op99', ':polarity', ':quant',
              ':', ':r', ':s', ':time', ':location', ':part', ':name', ':x2y9', ':x2y10', ':consist', ':poss', ':wiki']
 
 MODEL_NAMES = ['default', 'amr', 'noop', 'mini']
